@@ -33,7 +33,7 @@ def plan(tier):
                             cover=["role-" + r for r in roles] + ["episode-open", "filter-synthesised-commands"],
                             bounds=dict(params, roles=roles), excludable=rt.EXCLUDABLE))
     add("e-only-k3", K=3, firmware=0, kinds="rd")
-    add("e-only-k5-core", K=5, firmware=0, kinds="r", roles="RET,REC,PRINT,TRAVEL,SETE")
+    add("e-only-k5-core", K=5, firmware=0, kinds="r", roles="RET,REC,PRINT,TRAVEL,TRAVELE")
     add("e-only-k4-spelling", K=4, firmware=0, kinds="r", roles="PRINTDOT,TRAVEL,RET,REC")
     add("firmware-k4", K=4, firmware=1, kinds="r", roles="FRET,FREC,FRET1,FREC1,PRINT,TRAVEL")
     if tier == "thorough":
